@@ -318,11 +318,54 @@ func (r *rewriter) rewriteForRange(pkg loader.Pkg, fr *ast.RangeStmt) *ast.ForSt
 
 	init := X.Define(iter, fr.X)
 	cond := X.Call(next)
+	stmts := fr.Body.List
+	if key, ok := fr.Key.(*ast.Ident); ok && fr.Tok == token.DEFINE && declares(stmts, key.Name) {
+		// the loop variable has a scope of its own: a declaration of the same name
+		// in the body shadows it (and must not re-assign or clash with it)
+		stmts = []ast.Stmt{X.Block(stmts...)}
+	}
 	body := X.Block1(
 		X.Assign(fr.Tok, fr.Key, X.Call(current)),
-		fr.Body.List...,
+		stmts...,
 	)
 	return X.ForStmt(init, cond, nil, body)
+}
+
+// declares reports whether one of the statements (not their sub-statements) declares name
+func declares(stmts []ast.Stmt, name string) bool {
+	for _, stmt := range stmts {
+		switch stmt := stmt.(type) {
+		case *ast.AssignStmt:
+			if stmt.Tok != token.DEFINE {
+				continue
+			}
+			for _, lhs := range stmt.Lhs {
+				if id, ok := lhs.(*ast.Ident); ok && id.Name == name {
+					return true
+				}
+			}
+		case *ast.DeclStmt:
+			decl, _ := stmt.Decl.(*ast.GenDecl)
+			if decl == nil {
+				continue
+			}
+			for _, spec := range decl.Specs {
+				switch spec := spec.(type) {
+				case *ast.ValueSpec:
+					for _, id := range spec.Names {
+						if id.Name == name {
+							return true
+						}
+					}
+				case *ast.TypeSpec:
+					if spec.Name.Name == name {
+						return true
+					}
+				}
+			}
+		}
+	}
+	return false
 }
 
 // ↓↓↓↓↓↓↓↓↓↓↓↓↓↓↓↓↓↓↓↓↓↓ Rewrite co.Iter ↓↓↓↓↓↓↓↓↓↓↓↓↓↓↓↓↓↓↓↓↓↓
